@@ -254,7 +254,13 @@ void do_sample(uint64_t k, Rng &rng, Stats &st, const Sandbox &sb) {
     if (skip_fold) flags.push_back({"--skip_loop_folding", ""});
     if (skip_ref) flags.push_back({"--skip_reference_sample", ""});
     for (size_t i = flags.size(); i > 1; i--) std::swap(flags[i - 1], flags[rng.below(i)]);
-    auto r = run_cli("sample", flags, rng.chance(0.3));
+    bool streamed = rng.chance(0.4);
+    CliResult r;
+    if (streamed) {
+        DebugForceResultStreamingRaii force;
+        r = run_cli("sample", flags, rng.chance(0.3));
+    } else r = run_cli("sample", flags, rng.chance(0.3));
+    if (streamed) st.hit("sample.forced_streaming");
     if (r.code != 0) {
         out_x("`stim " + strip_dir(r.line, sb) + "` failed on a valid circuit: " + strip_dir(r.err, sb).substr(0, 300));
         return;
@@ -305,7 +311,19 @@ void do_detect(uint64_t k, Rng &rng, Stats &st, const Sandbox &sb) {
     if (variant == 2) { flags.push_back({"--obs_out", sb.path("obs")}); flags.push_back({"--obs_out_format", FN[fo]}); }
     if (variant == 3) flags.push_back({"--prepend_observables", ""});
     for (size_t i = flags.size(); i > 1; i--) std::swap(flags[i - 1], flags[rng.below(i)]);
-    auto r = run_cli("detect", flags, rng.chance(0.3));
+    // half of the runs go through the streaming writer (what a circuit too large to hold in memory gets)
+    bool streamed = rng.chance(0.5);
+    CliResult r;
+    if (streamed) {
+        DebugForceResultStreamingRaii force;
+        r = run_cli("detect", flags, rng.chance(0.3));
+    } else r = run_cli("detect", flags, rng.chance(0.3));
+    st.hit(streamed ? "detect.forced_streaming" : "detect.in_memory");
+    if (streamed && r.code != 0 && (variant == 3 || (f == 4 && variant == 0)) && r.err.find("isn't supported when sampling circuits so large") != std::string::npos) {
+        // the streaming writer refuses to prepend observables (explicitly; also the implicit prepend of the dets format)
+        st.hit("detect.streaming_prepend_refused");
+        return;
+    }
     if (r.code != 0) {
         out_x("`stim " + strip_dir(r.line, sb) + "` failed on a valid circuit: " + strip_dir(r.err, sb).substr(0, 300));
         return;
